@@ -256,7 +256,7 @@ def run(tier, seed, only=None):
                "statistic of the XML result recomputed from the recorded linear system (numpy reference Q) and scipy "
                "quantiles; + scaling relation for sigma-apr x c (v'Pv x c^2, a posteriori deviation x c, everything else unchanged). class = (network kind, sigma-act, dof class, algorithm, "
                "features)")
-    n = tier_n(tier, 60, 1500)
+    n = tier_n(tier, 200, 1500)
     jobs = []
     frames = {}
     for i in range(n):
@@ -307,6 +307,12 @@ def run(tier, seed, only=None):
             A = netlevel.physical_result(R0, frames[i])
             B = netlevel.physical_result(R, frames[i])
             rel = []
+            if {k: len(v) for k, v in A["obs"].items()} != {k: len(v) for k, v in B["obs"].items()}:
+                # the relation presumes the same observations: gama's gross-absolute-term test works on the
+                # homogenised right-hand side (term x sigma-apr / stdev; C14 known finding), so a larger sigma-apr
+                # makes it exclude good angular observations -- C14 reports that, nothing to relate here
+                ck.count("scaled run adjusted another set of observations (gross-term test depends on sigma-apr: C14 finding)")
+                continue
             # weights are p = (sigma_apr / sigma_i)^2: v'Pv scales by c^2, the a posteriori deviation by c, their
             # ratio to sigma_apr, the covariances and all standard deviations stay as they are
             if abs(R["sum_of_squares"] / (c * c) - R0["sum_of_squares"]) > 3e-7 * R0["sum_of_squares"] + 1e-12:
